@@ -94,15 +94,6 @@ func isSigReqType(t types.Type) bool {
 	return ok && b.Info()&types.IsInteger != 0 && strings.Contains(strings.ToLower(n.Obj().Name()), "signature")
 }
 
-func sigReqParam(fn *ssa.Function) (*ssa.Parameter, int) {
-	for i, prm := range fn.Params {
-		if isSigReqType(prm.Type()) {
-			return prm, i
-		}
-	}
-	return nil, -1
-}
-
 func elementParam(fn *ssa.Function) int {
 	for i, prm := range fn.Params {
 		if typeIs(prm.Type(), "github.com/beevik/etree", "Element") {
